@@ -61,7 +61,7 @@ def atoms_part(draw, max_atoms=4, cz_hi=6.0):
 
 @st.composite
 def frozen_phonons_spec(draw):
-    n = draw(st.sampled_from([1, 2, 2, 3, 4]))
+    n = draw(st.sampled_from([2, 3, 1, 4, 2]))
     seed_kind = draw(st.sampled_from(["int", "tuple"]))
     seed = draw(st.integers(0, 10**6)) if seed_kind == "int" else sorted(set(draw(st.lists(st.integers(0, 10**6), min_size=n, max_size=n, unique=True))))
     return {
@@ -75,7 +75,8 @@ def frozen_phonons_spec(draw):
 
 @st.composite
 def builder_case(draw, with_array):
-    kinds = ["atoms", "frozen_phonons", "frozen_phonons", "frozen_phonons", "atoms_ensemble", "atoms_ensemble", "crystal", "crystal", "crystal_fp", "crystal_fp"]
+    # (Hypothesis favours early entries: ensembles first)
+    kinds = ["frozen_phonons", "crystal_fp", "atoms_ensemble", "crystal", "atoms", "frozen_phonons", "crystal", "crystal_fp"]
     if with_array:
         kinds += ["array", "array", "array_ensemble"]
     kind = draw(st.sampled_from(kinds))
@@ -93,7 +94,7 @@ def builder_case(draw, with_array):
     if kind in ("frozen_phonons", "crystal_fp"):
         case["fp"] = draw(frozen_phonons_spec())
     if kind == "atoms_ensemble":
-        case["fp"] = {"num_configs": draw(st.sampled_from([1, 2, 2, 3, 4])), "seed": draw(st.integers(0, 10**6)), "ensemble_mean": draw(st.booleans())}
+        case["fp"] = {"num_configs": draw(st.sampled_from([2, 3, 1, 4, 2])), "seed": draw(st.integers(0, 10**6)), "ensemble_mean": draw(st.booleans())}
     if kind.startswith("crystal"):
         case["reps"] = [draw(st.integers(1, 2)), draw(st.integers(1, 2)), draw(st.integers(1, 3))]
         case["unit_built"] = draw(st.booleans())  # hand CrystalPotential a PotentialArray instead of a builder
@@ -101,12 +102,12 @@ def builder_case(draw, with_array):
         if seeds_kind == "none":
             case["seeds"], case["num_frozen_phonons"] = None, None
         elif seeds_kind == "tuple":
-            m = draw(st.sampled_from([1, 2, 2, 3]))
+            m = draw(st.sampled_from([2, 3, 1, 2]))
             case["seeds"] = draw(st.lists(st.integers(0, 10**6), min_size=m, max_size=m, unique=True))
             case["num_frozen_phonons"] = None
         else:
             case["seeds"] = draw(st.integers(0, 10**6))
-            case["num_frozen_phonons"] = draw(st.sampled_from([1, 2, 2, 3]))
+            case["num_frozen_phonons"] = draw(st.sampled_from([2, 3, 1, 2]))
         case["crystal_ensemble_mean"] = draw(st.booleans())
     return case
 
@@ -310,7 +311,7 @@ def _kind_class(kind):
     tol="ulp32(8): 1e-6*max|P| for builders, exact for PotentialArray; thicknesses/flags exact",
     rule="window != full range",
     nontrivial_floor=0.4,
-    floors={"crystal": 0.15, "potential": 0.15, "array": 0.1, "first>0": 0.3},
+    floors={"crystal": 0.1, "potential": 0.15, "array": 0.1, "first>0": 0.2},
 )
 def check_slice_window(case, ctx):
     import abtem
